@@ -724,69 +724,88 @@ def known_case(ctx, pq, root, tr, cls, expect_model=None):
 
 # ---- stream 7: footers and page headers of files written by fastparquet.write -----------------------------
 
-def stream_files(ctx, pq):
-    C.use_shadow()
+def file_desc(rng):
+    nrows = rng.choice([1, 10, 300])
+    return {"nrows": nrows, "idtype": rng.choice(["int64", "int32", "uint8", "int16"]), "ftype": rng.choice(["float64", "float32"]),
+            "cat": rng.random() < 0.5, "nullable": rng.random() < 0.4, "objnull": rng.random() < 0.4,
+            "compression": rng.choice([None, "SNAPPY", "GZIP"]), "stats": rng.choice([True, False]),
+            "rgo": rng.choice([None, max(1, nrows // 2)]), "kvlen": rng.choice([None, 0, 1, 200]),
+            "scheme": rng.choice(["simple", "hive"]), "v2": rng.random() < 0.4, "times": rng.choice(["int64", "int96"]),
+            "has_nulls": rng.choice([True, False, "infer", "infer"])}
+
+
+def check_written(fd, scratch, pq, tag):
+    """write a frame with fastparquet.write as described by fd; strict IDL-typed parse of every footer and page header.
+    -> (problems, counts)"""
     import numpy as np
     import pandas as pd
     import fastparquet
+    import fastparquet.writer as fw
     from harness import pqfile
+    nrows = fd["nrows"]
+    df = pd.DataFrame({
+        "i": np.arange(nrows, dtype=fd["idtype"]),
+        "f": np.linspace(0, 1, nrows).astype(fd["ftype"]),
+        "s": ["v%d" % (j % 7) for j in range(nrows)],
+        "t": pd.date_range("2020-01-01", periods=nrows, freq="h"),
+        "b": np.arange(nrows) % 2 == 0,
+    })
+    if fd["cat"]:
+        df["c"] = pd.Categorical(["x", "y"] * (nrows // 2) + ["x"] * (nrows % 2))
+    if fd["nullable"]:
+        df["n"] = pd.array([None if j % 3 == 0 else j for j in range(nrows)], dtype="Int64")
+    if fd["objnull"]:
+        df["o"] = pd.Series([None if j % 2 else "t%d" % j for j in range(nrows)], dtype="object")
+    path = os.path.join(scratch, "%s.parquet" % tag)
+    old = fw.DATAPAGE_VERSION
+    fw.DATAPAGE_VERSION = 2 if fd["v2"] else 1
+    try:
+        fastparquet.write(path, df, file_scheme=fd["scheme"], times=fd["times"], compression=fd["compression"], stats=fd["stats"],
+                          row_group_offsets=fd["rgo"], has_nulls=fd["has_nulls"],
+                          custom_metadata=None if fd["kvlen"] is None else {"k": "v" * fd["kvlen"]})
+    finally:
+        fw.DATAPAGE_VERSION = old
+    files = [path] if fd["scheme"] == "simple" else [os.path.join(path, f) for f in sorted(os.listdir(path))]
+    problems, counts = [], {"footer": 0, "page_header": 0}
+    for fn in files:
+        data = open(fn, "rb").read()
+        if data[-4:] != b"PAR1":
+            continue
+        size = int.from_bytes(data[-8:-4], "little")
+        footer = data[-8 - size:-8]
+        r = pq.call("idl_dec", "FileMetaData", 1, 0, 1, footer)
+        counts["footer"] += 1
+        if sym(r[0]) != "ok" or r[2] != 0:
+            problems.append(("FileMetaData", os.path.basename(fn), "footer is not a conformant FileMetaData: %s at field path %r" % (sym(r[0]), T.canon(r)[1:2])))
+        if os.path.basename(fn) in ("_metadata", "_common_metadata"):
+            continue
+        fmd = fastparquet.cencoding.from_buffer(footer, "FileMetaData")
+        for rg in fmd.row_groups:
+            for col in rg.columns:
+                pages, _, _ = pqfile.chunk_pages(data, col.meta_data)
+                for p in pages:
+                    hb = data[p["offset"]:p["offset"] + p["header_len"]]
+                    r = pq.call("idl_dec", "PageHeader", 1, 0, 1, hb)
+                    counts["page_header"] += 1
+                    if sym(r[0]) != "ok" or r[2] != 0:
+                        problems.append(("PageHeader", os.path.basename(fn), "page header not conformant: %s at field path %r" % (sym(r[0]), T.canon(r)[1:2])))
+    return problems, counts
+
+
+def stream_files(ctx, pq):
+    C.use_shadow()
     rng = ctx.rng
-    n = 6 if ctx.quick() else 60
+    n = 8 if ctx.quick() else 80
     for i in range(n):
-        nrows = rng.choice([1, 10, 300])
-        df = pd.DataFrame({
-            "i": np.arange(nrows, dtype=rng.choice(["int64", "int32", "uint8", "int16"])),
-            "f": np.linspace(0, 1, nrows).astype(rng.choice(["float64", "float32"])),
-            "s": ["v%d" % (j % 7) for j in range(nrows)],
-            "t": pd.date_range("2020-01-01", periods=nrows, freq="h"),
-            "b": np.arange(nrows) % 2 == 0,
-        })
-        if rng.random() < 0.5:
-            df["c"] = pd.Categorical(["x", "y"] * (nrows // 2) + ["x"] * (nrows % 2))
-        if rng.random() < 0.4:
-            df["n"] = pd.array([None if j % 3 == 0 else j for j in range(nrows)], dtype="Int64")
-        path = os.path.join(ctx.scratch, "f%d.parquet" % i)
-        opts = dict(compression=rng.choice([None, "SNAPPY", "GZIP"]), stats=rng.choice([True, False]),
-                    row_group_offsets=rng.choice([None, max(1, nrows // 2)]),
-                    custom_metadata={"k": "v" * rng.choice([0, 1, 200])} if rng.random() < 0.5 else None)
-        scheme = rng.choice(["simple", "hive"])
-        v2 = rng.random() < 0.4
-        import fastparquet.writer as fw
-        old = fw.DATAPAGE_VERSION
-        fw.DATAPAGE_VERSION = 2 if v2 else 1
-        try:
-            fastparquet.write(path, df, file_scheme=scheme, times=rng.choice(["int64", "int96"]), **opts)
-        finally:
-            fw.DATAPAGE_VERSION = old
-        files = [path] if scheme == "simple" else [os.path.join(path, f) for f in sorted(os.listdir(path))]
-        case = {"stream": "written-files", "nrows": nrows, "scheme": scheme, "v2": v2,
-                "opts": {k: (v if not isinstance(v, dict) else {kk: len(vv) for kk, vv in v.items()}) for k, v in opts.items()},
-                "cols": list(df.columns), "dtypes": [str(t) for t in df.dtypes]}
+        fd = file_desc(rng)
+        case = {"stream": "written-files", "file": fd}
         ctx.case(case)
-        for fn in files:
-            data = open(fn, "rb").read()
-            if data[-4:] != b"PAR1":
-                continue
-            size = int.from_bytes(data[-8:-4], "little")
-            footer = data[-8 - size:-8]
-            r = pq.call("idl_dec", "FileMetaData", 1, 0, 1, footer)
-            ctx.count("files.footer", sym(r[0]))
-            if sym(r[0]) != "ok" or r[2] != 0:
-                ctx.fail({"component": "writer-call-sites", "kind": "idl-nonconformant", "struct": "FileMetaData"},
-                         dict(case, file=os.path.basename(fn)), "footer is not a conformant FileMetaData: %r" % (T.canon(r)[:2],))
-            if os.path.basename(fn) in ("_metadata", "_common_metadata"):
-                continue
-            fmd = fastparquet.cencoding.from_buffer(footer, "FileMetaData")
-            for rg in fmd.row_groups:
-                for col in rg.columns:
-                    pages, _, _ = pqfile.chunk_pages(data, col.meta_data)
-                    for p in pages:
-                        hb = data[p["offset"]:p["offset"] + p["header_len"]]
-                        r = pq.call("idl_dec", "PageHeader", 1, 0, 1, hb)
-                        ctx.count("files.page_header", sym(r[0]))
-                        if sym(r[0]) != "ok" or r[2] != 0:
-                            ctx.fail({"component": "writer-call-sites", "kind": "idl-nonconformant", "struct": "PageHeader"},
-                                     dict(case, file=os.path.basename(fn)), "page header not conformant: %r" % (T.canon(r)[:2],))
+        problems, counts = check_written(fd, ctx.scratch, pq, "f%d" % i)
+        ctx.count("files.has_nulls", fd["has_nulls"])
+        for k, v in counts.items():
+            ctx.dist.setdefault("files.parsed", {})[k] = ctx.dist.setdefault("files.parsed", {}).get(k, 0) + v
+        for struct, fn, msg in problems[:1]:
+            ctx.fail({"component": "writer-call-sites", "kind": "idl-nonconformant", "struct": struct}, dict(case, where=fn), msg)
 
 
 # ---------------------------------------------------------------------------------------------------
@@ -797,6 +816,21 @@ def replay(rep):
         print(json.dumps(rep, indent=1)[:6000])
         return 1
     case = rep["case"]
+    if case.get("stream") == "written-files":
+        import tempfile
+        import shutil
+        C.use_shadow()
+        tmp = tempfile.mkdtemp(prefix="verif-C10-replay-", dir="/tmp")
+        try:
+            pq = C.Pqref()
+            problems, counts = check_written(case["file"], tmp, pq, "replay")
+            pq.close()
+            print("wrote %r; strict IDL-typed parse of %d footer(s), %d page header(s)" % (case["file"], counts["footer"], counts["page_header"]))
+            for pr in problems:
+                print("PROPERTY FAILS:", pr)
+            return 1 if problems else 0
+        finally:
+            shutil.rmtree(tmp, ignore_errors=True)
     if "tree" not in case:
         print(json.dumps(rep, indent=1)[:6000])
         return 1
